@@ -341,6 +341,23 @@ def assigned_targets(stmt):
     return out
 
 
+NOISE_ROOTS = ('log', 'txtorlog', 'logging', 'logger', 'print', 'warnings', 'warn')
+
+
+def is_noise(stmt):
+    """a statement with no bearing on any rule: docstring, pass, or a bare logging call"""
+    if isinstance(stmt, ast.Pass):
+        return True
+    if isinstance(stmt, ast.Expr):
+        v = stmt.value
+        if isinstance(v, ast.Constant):
+            return True
+        if isinstance(v, ast.Call):
+            d = dotted(v.func)
+            return d is not None and d.split('.')[0] in NOISE_ROOTS
+    return False
+
+
 def is_none(node):
     return isinstance(node, ast.Constant) and node.value is None
 
